@@ -983,7 +983,7 @@ func main() {
 	workDir = filepath.Join(absOut, "scratch")
 	os.MkdirAll(workDir, 0o755)
 	ctx = dmetering.WithBytesMeter(reqctx.WithLogger(context.Background(), zap.NewNop()))
-	out.Rule = "RT: generated full and partial stores (0..6000 distinct keys, ascii and arbitrary binary keys, the empty key, empty values, lengths around 127/128 and 16383/16384, 0..3 deleted prefixes, initial/end blocks 0, around 10^10, 2^63, 2^64-1) saved with the real Save+Write on a local zstd dstore and loaded into a fresh store; LOAD: every saved object content, mutated contents (truncated, flipped, duplicated chunks) loaded by the real Load; NAME/PARSE: block numbers of 1..20 digits, names with trace ids, foreign names, unanchored matches; LIST: random directories of snapshot names (+ trace-id and foreign names) created on disk and listed by the real ListSnapshotFiles for below = 0, inside, at and beyond the saved ends; non-trivial = at least one key / name parses / listing non-empty; distinct by case line"
+	out.Rule = "RT: generated full and partial stores (0..6000 distinct keys, ascii and arbitrary binary keys, the empty key, empty values, lengths around 127/128 and 16383/16384, 0..3 deleted prefixes, initial/end blocks 0, around 10^10, 2^63, 2^64-1) saved with the real Save+Write on a local zstd dstore and loaded into a fresh store; LOAD: every saved object content, mutated contents (truncated, flipped, duplicated chunks) loaded by the real Load; NAME/PARSE: block numbers of 1..20 digits, names with trace ids, foreign names, unanchored matches; LIST: random directories of snapshot names (+ trace-id and foreign names; one directory in ten holds 60..140 trace-id names, i.e. on both sides of the 100 deletions a walk allows itself) created on disk and listed by the real ListSnapshotFiles for below = 0, inside, at and beyond the saved ends; non-trivial = at least one key / name parses / listing non-empty; distinct by case line"
 	defer out.Finish()
 	defer os.RemoveAll(workDir)
 
@@ -1050,6 +1050,21 @@ func main() {
 			if n := genJunkName(rng); fsSafe(n) {
 				names = append(names, n)
 			}
+		}
+		// a directory left by an older release: more than 100 files with a trace id in their names (the walk deletes
+		// at most 100 of them per call; none of them, deleted or not, is a snapshot)
+		if i%10 == 3 || rng.Chance(1, 15) {
+			nLegacy := rng.Range(101, 140)
+			if i%20 == 3 {
+				nLegacy = rng.Range(60, 100)
+			}
+			for j := 0; j < nLegacy; j++ {
+				s := base + seg*uint64(rng.Range(0, 12))
+				e := s + seg*uint64(rng.Range(1, 3))
+				ext := []string{"partial", "kv"}[rng.Intn(2)]
+				names = append(names, fmt.Sprintf("%010d-%010d.%08x%04x.%s", e, s, rng.Intn(1<<30), j, ext))
+			}
+			out.Count("list:legacy-dir(>100 trace-id names)")
 		}
 		if rng.Chance(1, 25) { // an empty range
 			names = append(names, snapName(snap{base + seg, base + seg, rng.Bool()}))
